@@ -46,7 +46,11 @@ def gen_case(rng, i, tier):
                 if rng.random() < 0.4:
                     th[k] = th[k - 1]
         thetas.append(th)
-    return {"n": n, "bins": bins, "decreasing": rng.random() < 0.4, "thetas": thetas, "inside": inside,
+    tdtype = rng.choice(["float64"] * 7 + ["int64", "int64", "float32"])
+    if tdtype == "int64":
+        # integer-typed target_data (an integer depth coordinate, say) while the bin edges stay fractional
+        thetas = [[float(int(v)) for v in th] for th in thetas]
+    return {"n": n, "bins": bins, "decreasing": rng.random() < 0.4, "thetas": thetas, "inside": inside, "tdtype": tdtype,
             "path": rng.choice(["kernel", "kernel", "grid-outer", "grid-center"]), "dseed": rng.getrandbits(31),
             "extra_pos": rng.sample(["left", "right", "inner"], rng.choice([0, 0, 1, 2])),
             "order_seed": rng.getrandbits(8), "dask": rng.choice([None, None, "synchronous", "threads"]),
@@ -89,7 +93,8 @@ def features(desc):
     bins = desc["bins"]
     homog = any(a == b for th in desc["thetas"] for a, b in zip(th[:-1], th[1:]))
     onedge = any(v in bins for th in desc["thetas"] for v in th)
-    return (desc["path"], desc["n"], len(bins) - 1, "dec" if desc["decreasing"] else "inc", len(desc["thetas"]), homog, onedge, desc["inside"])
+    return (desc["path"], desc["n"], len(bins) - 1, "dec" if desc["decreasing"] else "inc", len(desc["thetas"]), homog, onedge, desc["inside"],
+            desc.get("tdtype", "float64"))
 
 
 def run_case(ctx, desc):
@@ -104,7 +109,7 @@ def run_case(ctx, desc):
         return run_grid(ctx, desc, nontrivial)
     ctx.judged(features(desc), nontrivial)
     phi = np.broadcast_to(np.eye(n)[:, None, :], (n, ncol, n)).copy()  # [unit i, column, cell]
-    th = np.broadcast_to(np.array(thetas, float)[None], (n, ncol, n + 1)).copy()
+    th = np.broadcast_to(np.array(thetas, float)[None], (n, ncol, n + 1)).copy().astype(desc.get("tdtype", "float64"))
     try:
         out = T.interp_1d_conservative(phi, th, b)  # [unit i, column, bin]
     except Exception as e:
@@ -129,7 +134,7 @@ def run_case(ctx, desc):
             e = np.zeros(n)
             e[i] = 1.0
             try:
-                o = T.interp_1d_conservative(e, np.array(thetas[c], float), b)
+                o = T.interp_1d_conservative(e, np.array(thetas[c], float).astype(desc.get("tdtype", "float64")), b)
             except Exception as ex:
                 ctx.violation("kernel-returns", f"1-D call raised {type(ex).__name__}: {str(ex)[:200]}")
                 return
@@ -140,7 +145,7 @@ def run_case(ctx, desc):
     # reversal: decreasing bins only reverse the output
     ctx.judged(("reversal",) + features(desc)[1:4], True)
     data = gen.quarter_data(desc["dseed"], (ncol, n))
-    tharr = np.array(thetas, float)
+    tharr = np.array(thetas, float).astype(desc.get("tdtype", "float64"))
     try:
         inc = T.interp_1d_conservative(data, tharr, np.array(bins, float))
         dec = T.interp_1d_conservative(data, tharr, np.array(bins[::-1], float))
@@ -185,10 +190,10 @@ def run_grid(ctx, desc, nontrivial):
     if on_center:
         # n values on centres; the model's bounds are their interpolation to outer with nearest-value extension
         cvals = [th[:n] for th in thetas]
-        td = xr.DataArray(np.array(cvals, float), dims=["col", "z_ce"], name="dens")
+        td = xr.DataArray(np.array(cvals, float).astype(desc.get("tdtype", "float64") if desc.get("tdtype") != "int64" else "float64"), dims=["col", "z_ce"], name="dens")
         bounds = [[c[0]] + [(c[k - 1] + c[k]) / 2 for k in range(1, n)] + [c[-1]] for c in cvals]
     else:
-        td = xr.DataArray(np.array(thetas, float), dims=["col", "z_ou"], name="dens")
+        td = xr.DataArray(np.array(thetas, float).astype(desc.get("tdtype", "float64")), dims=["col", "z_ou"], name="dens")
         bounds = thetas
     b = np.array(bins[::-1] if desc["decreasing"] else bins, float)
     target = b if desc["target_as"] == "ndarray" else xr.DataArray(b, dims=["dens_lev"], name="dens_lev")
